@@ -22,7 +22,9 @@ def witness_from_trace(trace):
 def write_replay(pid, r, o, work):
     """write /verif/replays/<pid>-<group>-<obligation>.json; returns (path, reproduced)"""
     safe = re.sub(r'[^A-Za-z0-9_.-]', '_', f'{pid}-{r["group"]}-{o["name"]}')
-    path = os.path.join(VERIF, 'replays', safe + '.json')
+    rdir = os.environ.get('VERIF_REPLAY_DIR', os.path.join(VERIF, 'replays'))
+    os.makedirs(rdir, exist_ok=True)
+    path = os.path.join(rdir, safe + '.json')
     wit = witness_from_trace(o.get('trace'))
     doc = {'property': pid, 'group': r['group'], 'function': r['function'], 'contract': r['contract'],
            'obligation': o['name'], 'class': o['class'], 'description': o['description'], 'clause': o['clause'],
